@@ -1,5 +1,5 @@
 (* C08 -- a configuration update is all-or-nothing.  Final statements only;
-   the model is in Model.v (the code after patches/C08/fix-F-C08{a,b,c,f}),
+   the model is in Model.v (the code after patches/C08/fix-F-C08{a,b,c,e,f}),
    the proofs in Proofs.v.
 
    Every theorem quantifies over: the type of file contents and the digest
@@ -7,10 +7,14 @@
    two external verdicts (dry-run validation, metrics reload) as arbitrary
    functions of the disk, the content of a new file and what a failing write
    leaves behind, the handler, the whole request (method, body, payload:
-   any files, decodable or not), the disk, the fault oracle (no fault, any
-   primitive step, any hook-bearing step) and the order hints (any order in
-   which Go iterates over its maps).  Transactions arrive at every primitive
-   step: [arrivals] lists the engine met at each of them and the final one. *)
+   any files, decodable or not, whatever their names resolve to), the disk,
+   the fault oracle (no fault, any primitive step, any hook-bearing step) and
+   the order hints (any order in which Go iterates over its maps).
+   Transactions arrive at every primitive step: [arrivals] lists the engine
+   met at each of them and the final one.
+
+   [run] below is the gateway as it is (with the file-name check of
+   fix-F-C08e); [run_unchecked] is the same code without that check. *)
 From Coq Require Import List NArith Bool Arith.
 From Verif Require Import C08.Model C08.Proofs.
 Import ListNotations.
@@ -29,40 +33,49 @@ Section Statements.
   Hypothesis D_eqb_spec : forall a b, D_eqb a b = true <-> a = b.
   Hypothesis digest_injective : forall a b, digest a = digest b -> a = b.
 
-  Notation run := (run B D digest D_eqb empty garbage valid metrics_ok).
+  Notation run := (run B D digest D_eqb empty garbage valid metrics_ok true).
+  Notation run_unchecked := (Model.run B D digest D_eqb empty garbage valid metrics_ok false).
+  Notation master := (run_master digest D_eqb empty garbage valid metrics_ok D_eqb_spec digest_injective).
 
   (* Disk atomicity.  A rejected or failed update leaves every file as it was,
-     byte for byte (extensional equality of the path -> content map), provided
-     every file the payload names lies in a place the snapshot covers. *)
-  Theorem C08_disk_atomic : forall hint rq d f s',
-    targets_covered (r_payload rq) = true ->
-    run hint rq d f = (Failed, s') ->
+     byte for byte (extensional equality of the path -> content map over ALL
+     paths, the places outside the configuration directories included),
+     whatever the payload names its files. *)
+  Theorem C08_disk_atomic : forall hs hint rq d f s',
+    run hs hint rq d f = (Failed, s') ->
     forall p, lookup p (dsk s') = lookup p d.
   Proof.
-    intros hint rq d f s' T R p.
-    destruct (run_master digest D_eqb empty garbage valid metrics_ok D_eqb_spec digest_injective
-                         _ _ _ _ _ _ R) as (k & _ & HF & HU & _).
+    intros hs hint rq d f s' R p.
+    destruct (master _ _ _ _ _ _ _ _ R) as (k & _ & HF & HU & _).
     destruct (covered p) eqn:C; [apply (proj1 (HF eq_refl)); exact C|apply HU; auto].
   Qed.
 
-  (* The same with the name the guide asks for when a finding stays open:
-     the side condition is decidable and is what the monitor's classifier
-     computes (a payload file name that leaves the configuration places). *)
-  Theorem C08_disk_atomic_holds_outside_uncovered_target : forall hint rq d f s',
-    targets_covered (r_payload rq) = true ->
-    run hint rq d f = (Failed, s') ->
-    forall p, lookup p (dsk s') = lookup p d.
-  Proof. exact C08_disk_atomic. Qed.
-
-  (* Whatever the payload names, the places the snapshot covers are restored. *)
-  Theorem C08_disk_atomic_on_covered_places : forall hint rq d f s',
-    run hint rq d f = (Failed, s') ->
-    forall p, covered p = true -> lookup p (dsk s') = lookup p d.
+  (* A payload with a file name that does not stay inside its directory is
+     never applied: the update ends in [Failed] (to which C08_disk_atomic
+     applies) or, after a second independent failure, in [RollbackFailed]. *)
+  Theorem C08_escaping_name_is_never_applied : forall hs hint rq d f r s',
+    names_escape (r_payload rq) = true ->
+    run hs hint rq d f = (r, s') -> r <> Ok.
   Proof.
-    intros hint rq d f s' R.
-    destruct (run_master digest D_eqb empty garbage valid metrics_ok D_eqb_spec digest_injective
-                         _ _ _ _ _ _ R) as (k & _ & HF & _).
-    exact (proj1 (HF eq_refl)).
+    intros hs hint rq d f r s' E R ->.
+    destruct (master _ _ _ _ _ _ _ _ R) as (k & _ & _ & _ & HO & _).
+    destruct (HO eq_refl) as (_ & _ & _ & _ & NE). rewrite E in NE. discriminate.
+  Qed.
+
+  (* What the code without the name check guarantees (kept to document what
+     the check adds): the places the snapshot covers are restored whatever
+     the payload names, every path only when every named file lies in a
+     covered place.  C08_disk_atomic_without_name_check_refuted below shows
+     that the side condition cannot be dropped there. *)
+  Theorem C08_disk_atomic_without_name_check_on_covered_places : forall hs hint rq d f s',
+    run_unchecked hs hint rq d f = (Failed, s') ->
+    forall p, covered p = true \/ targets_covered (r_payload rq) = true ->
+              lookup p (dsk s') = lookup p d.
+  Proof.
+    intros hs hint rq d f s' R p H.
+    destruct (master _ _ _ _ _ _ _ _ R) as (k & _ & HF & HU & _).
+    destruct (covered p) eqn:C; [apply (proj1 (HF eq_refl)); exact C|].
+    destruct H as [H|H]; [discriminate|]. apply HU; auto.
   Qed.
 
   (* Engine atomicity.  Unless the roll-back itself failed (see
@@ -72,85 +85,94 @@ Section Statements.
      never by an empty or half-built one; after a failed update the pointer is
      an engine of the old configuration, after a successful one the new
      configuration is on disk and serving. *)
-  Theorem C08_engine_atomic : forall hint rq d f r s',
-    run hint rq d f = (r, s') ->
-    exists k, let new := new_disk B (skipn k hint) rq d in
+  Theorem C08_engine_atomic : forall hs hint rq d f r s',
+    run hs hint rq d f = (r, s') ->
+    exists k, let new := new_disk B true (skipn k hs) rq d in
       (r <> RollbackFailed ->
        Forall (fun e => built_from d e \/ built_from new e) (arrivals s')) /\
       (r = Failed -> built_from d (eng s')) /\
       (r = Ok -> built_from new (eng s') /\ (forall p, lookup p (dsk s') = lookup p new) /\
                  valid (dsk s') = true /\ metrics_ok (dsk s') = true).
   Proof.
-    intros hint rq d f r s' R.
-    destruct (run_master digest D_eqb empty garbage valid metrics_ok D_eqb_spec digest_injective
-                         _ _ _ _ _ _ R) as (k & HA & HF & _ & HO & _).
+    intros hs hint rq d f r s' R.
+    destruct (master _ _ _ _ _ _ _ _ R) as (k & HA & HF & _ & HO & _).
     exists k. cbn zeta. split; [exact HA|]. split; [intro E; exact (proj2 (HF E))|].
-    intro E. destruct (HO E) as (Dq & Ee & V & M). split; [|split; [exact Dq|split; assumption]].
+    intro E. destruct (HO E) as (Dq & Ee & V & M & _). split; [|split; [exact Dq|split; assumption]].
     rewrite Ee. exists (dsk s'). split; [reflexivity|]. intros p _. apply Dq.
   Qed.
 
-  Corollary C08_no_empty_engine : forall hint rq d f r s',
-    run hint rq d f = (r, s') -> r <> RollbackFailed -> ~ In EEmpty (arrivals s').
+  Corollary C08_no_empty_engine : forall hs hint rq d f r s',
+    run hs hint rq d f = (r, s') -> r <> RollbackFailed -> ~ In EEmpty (arrivals s').
   Proof.
-    intros hint rq d f r s' R Hr Hin.
-    destruct (C08_engine_atomic _ _ _ _ _ _ R) as (k & HA & _).
+    intros hs hint rq d f r s' R Hr Hin.
+    destruct (C08_engine_atomic _ _ _ _ _ _ _ R) as (k & HA & _).
     pose proof (proj1 (Forall_forall _ _) (HA Hr) _ Hin) as [(c & E & _)|(c & E & _)]; discriminate.
   Qed.
 
   (* The roll-back can only fail when there were two independent failures: an
-     injected fault AND a payload that does not validate or whose metrics do
+     injected fault AND a payload that is bad by itself -- one of its file
+     names leaves its directory, or it does not validate, or its metrics do
      not load (so that the update had already failed for that reason when the
      fault hit the roll-back).  With a sound old configuration, one fault --
      at any step -- or one bad payload alone always ends in [Failed] or [Ok],
-     to which the two theorems above apply. *)
-  Theorem C08_rollback_fails_only_after_two_failures : forall hint rq d f s',
+     to which the theorems above apply. *)
+  Theorem C08_rollback_fails_only_after_two_failures : forall hs hint rq d f s',
     (forall a b, (forall p, covered p = true -> lookup p a = lookup p b) -> valid a = valid b) ->
     (forall a b, (forall p, covered p = true -> lookup p a = lookup p b) -> metrics_ok a = metrics_ok b) ->
     valid d = true -> metrics_ok d = true ->
-    run hint rq d f = (RollbackFailed, s') ->
+    run hs hint rq d f = (RollbackFailed, s') ->
     f <> NoFault /\
-    exists k, let new := new_disk B (skipn k hint) rq d in
-              valid new = false \/ metrics_ok new = false.
+    exists k, let new := new_disk B true (skipn k hs) rq d in
+              names_escape (r_payload rq) = true \/ valid new = false \/ metrics_ok new = false.
   Proof.
-    intros hint rq d f s' Vx Mx Vd Md R.
-    destruct (run_master digest D_eqb empty garbage valid metrics_ok D_eqb_spec digest_injective
-                         _ _ _ _ _ _ R) as (k & _ & _ & _ & _ & H2).
+    intros hs hint rq d f s' Vx Mx Vd Md R.
+    destruct (master _ _ _ _ _ _ _ _ R) as (k & _ & _ & _ & _ & H2).
     destruct (H2 eq_refl Vx Mx Vd Md) as [Hf Hn]. split; [exact Hf|exists k; exact Hn].
   Qed.
 
 End Statements.
 
 Print Assumptions C08_disk_atomic.
-Print Assumptions C08_disk_atomic_holds_outside_uncovered_target.
-Print Assumptions C08_disk_atomic_on_covered_places.
+Print Assumptions C08_escaping_name_is_never_applied.
+Print Assumptions C08_disk_atomic_without_name_check_on_covered_places.
 Print Assumptions C08_engine_atomic.
 Print Assumptions C08_no_empty_engine.
 Print Assumptions C08_rollback_fails_only_after_two_failures.
 
-(* ---------------------------------------------------------------- finding F-C08e
-   Full-strength disk atomicity (no condition on the file names of the
-   payload) does not hold: a name that leaves the configuration places is
-   written outside the snapshot and never rolled back. *)
-Definition C08_disk_atomic_full : Prop :=
-  forall (valid metrics_ok : disk N -> bool) hint rq d f s',
-    run N N (fun c => c) N.eqb 0%N 0%N valid metrics_ok hint rq d f = (Failed, s') ->
+(* ---------------------------------------------------------------- why the name check is needed
+   (defect F-C08e, repaired by patches/C08/fix-F-C08e.patch).  For the code
+   WITHOUT the check ([run ... false]) full-strength disk atomicity does not
+   hold: a name that leaves the configuration places is written outside the
+   snapshot and never rolled back. *)
+Definition C08_disk_atomic_without_name_check : Prop :=
+  forall (valid metrics_ok : disk N -> bool) hs hint rq d f s',
+    run N N (fun c => c) N.eqb 0%N 0%N valid metrics_ok false hs hint rq d f = (Failed, s') ->
     forall p, lookup p (dsk s') = lookup p d.
 
-Theorem C08_disk_atomic_full_refuted : ~ C08_disk_atomic_full.
+Definition refuting_request : request N :=
+  {| r_handler := HConfiguration; r_method_ok := true; r_body_ok := true;
+     r_payload := [ {| e_field := FFlows; e_target := (AOutside, 1%N);
+                       e_content := 7%N; e_decodable := true |};
+                    {| e_field := FFlows; e_target := (AFlows, 1%N);
+                       e_content := 8%N; e_decodable := true |} ] |}.
+
+Theorem C08_disk_atomic_without_name_check_refuted : ~ C08_disk_atomic_without_name_check.
 Proof.
   intro H.
-  pose (rq := {| r_handler := HConfiguration; r_method_ok := true; r_body_ok := true;
-                 r_payload := [ {| e_field := FFlows; e_target := (AOutside, 1%N);
-                                   e_content := 7%N; e_decodable := true |};
-                                {| e_field := FFlows; e_target := (AFlows, 1%N);
-                                   e_content := 8%N; e_decodable := true |} ] |}).
   (* content 8 does not validate; nothing else goes wrong *)
-  specialize (H (c_valid [8%N]) (fun _ => true) [] rq [] NoFault).
-  remember (run N N (fun c => c) N.eqb 0%N 0%N (c_valid [8%N]) (fun _ => true) [] rq [] NoFault) as x eqn:E.
+  specialize (H (c_valid [8%N]) (fun _ => true) [] [] refuting_request [] NoFault).
+  remember (run N N (fun c => c) N.eqb 0%N 0%N (c_valid [8%N]) (fun _ => true) false [] [] refuting_request [] NoFault)
+    as x eqn:E.
   vm_compute in E. destruct x as [r s]. injection E as -> ->.
   specialize (H _ eq_refl (AOutside, 1%N)). vm_compute in H. discriminate.
 Qed.
-Print Assumptions C08_disk_atomic_full_refuted.
+Print Assumptions C08_disk_atomic_without_name_check_refuted.
+
+(* the same request on the code with the check: refused, nothing written anywhere *)
+Example C08_refuting_request_is_refused_by_the_check :
+  let '(r, s) := run N N (fun c => c) N.eqb 0%N 0%N (c_valid [8%N]) (fun _ => true) true [] [] refuting_request [] NoFault in
+  (result_code r, normalize (dsk s)) = (1%N, []).
+Proof. vm_compute. reflexivity. Qed.
 
 (* ---------------------------------------------------------------- non-vacuity *)
 
@@ -166,14 +188,13 @@ Definition ex_request (h : handler) : request N :=
   {| r_handler := h; r_method_ok := true; r_body_ok := true;
      r_payload := [ex_entry FFlows ex_f1 11; ex_entry FFlows ex_f3 30] |}.
 Definition ex_run (valid : disk N -> bool) (h : handler) (f : fault) : result * st N :=
-  run N N (fun c => c) N.eqb 0 999 valid (c_metrics_ok []) [] (ex_request h) ex_disk f.
+  run N N (fun c => c) N.eqb 0 999 valid (c_metrics_ok []) true [] [] (ex_request h) ex_disk f.
 
 (* the hypotheses of the theorems are met by plain instances *)
 Example C08_hypotheses_satisfiable :
   (forall a b : N, N.eqb a b = true <-> a = b) /\
-  (forall a b : N, (fun c : N => c) a = (fun c => c) b -> a = b) /\
-  targets_covered (r_payload (ex_request HApplyFlows)) = true.
-Proof. split; [exact N.eqb_eq|split; [auto|reflexivity]]. Qed.
+  (forall a b : N, (fun c : N => c) a = (fun c => c) b -> a = b).
+Proof. split; [exact N.eqb_eq|auto]. Qed.
 
 (* /apply_flows that changes one file, adds one and removes one: a fault at
    each of its first 22 primitive steps ends in [Failed] with the disk
@@ -200,7 +221,7 @@ Proof. vm_compute. reflexivity. Qed.
 (* a payload whose metrics do not load fails AFTER the switch: transactions
    meet old, then new, then old again; the disk is restored *)
 Example C08_failure_after_the_switch :
-  let '(r, s) := run N N (fun c => c) N.eqb 0 999 (fun _ => true) (c_metrics_ok [66]) []
+  let '(r, s) := run N N (fun c => c) N.eqb 0 999 (fun _ => true) (c_metrics_ok [66]) true [] []
                      {| r_handler := HConfiguration; r_method_ok := true; r_body_ok := true;
                         r_payload := [ex_entry FFlows ex_f1 11; ex_entry FMetrics metrics_file 66] |}
                      ex_disk NoFault in
@@ -211,4 +232,53 @@ Proof. vm_compute. reflexivity. Qed.
 (* two failures: content 30 does not validate AND the fault hits the roll-back *)
 Example C08_rollback_failure_is_reachable :
   result_code (fst (ex_run (c_valid [30]) HApplyFlows (AtStep 20))) = 2.
+Proof. vm_compute. reflexivity. Qed.
+
+(* file names that leave their directory.  The disk holds a file outside the
+   configuration places (the one the name points at) and a quota file (the one
+   the sibling name points at); the payload is otherwise fine.  [hs] says the
+   flow f1 was saved before the bad name was met (Go map order). *)
+Definition ex_out : path := (AOutside, 9).
+Definition ex_disk_out : disk N := (ex_out, 70) :: ex_disk.
+Definition ex_escaping (t : path) : request N :=
+  {| r_handler := HConfiguration; r_method_ok := true; r_body_ok := true;
+     r_payload := [ex_entry FFlows t 71; ex_entry FFlows ex_f1 11; ex_entry FQuotas ex_q1 51] |}.
+Definition ex_run_escaping (fixed : bool) (t : path) (f : fault) : result * st N :=
+  run N N (fun c => c) N.eqb 0 999 (fun _ => true) (c_metrics_ok []) fixed [ex_f1; ex_f1] [] (ex_escaping t) ex_disk_out f.
+
+(* with the check: [Failed] wherever the name points (outside, a sibling
+   directory, the gateway file, a new outside file); f1 had been rewritten and
+   is restored, the quota field is never reached, every file keeps its bytes *)
+Example C08_escaping_name_fails_cleanly :
+  map (fun t => let '(r, s) := ex_run_escaping true t NoFault in
+                (result_code r, disk_eqb (dsk s) ex_disk_out, N.of_nat (length (seen s))))
+      [ex_out; ex_q1; (AGateway, 0); (AOutside, 5)]
+  = [(1, true, 12); (1, true, 12); (1, true, 12); (1, true, 12)].
+Proof. vm_compute. reflexivity. Qed.
+
+(* a fault at steps 0-5 (Backup, the save of f1) is the only failure: the bad
+   name is never met, [Failed], restored.  From step 6 on the name has been
+   refused and the fault hits the roll-back: a second, independent failure
+   ([RollbackFailed], 2) -- except step 8, the clean-up inside storeFileOnDisk
+   whose error the code ignores, and steps past the end of the run *)
+Example C08_escaping_name_with_a_fault :
+  map (fun n => let '(r, s) := ex_run_escaping true ex_out (AtStep n) in
+                (result_code r, disk_eqb (dsk s) ex_disk_out))
+      (seq 0 15)
+  = [(1, true); (1, true); (1, true); (1, true); (1, true); (1, true); (2, false); (2, false);
+     (1, true); (2, false); (2, false); (2, false); (1, true); (1, true); (1, true)].
+Proof. vm_compute. reflexivity. Qed.
+
+(* without the check the same update succeeds and overwrites the outside file *)
+Example C08_escaping_name_without_the_check :
+  let '(r, s) := ex_run_escaping false ex_out NoFault in
+  (result_code r, lookup ex_out (dsk s), lookup ex_q1 (dsk s)) = (0, Some 71, Some 51).
+Proof. vm_compute. reflexivity. Qed.
+
+Example C08_escaping_is_decided_by_the_field :
+  map (fun e => escapes e)
+      [ex_entry FFlows ex_f1 1; ex_entry FFlows ex_q1 1; ex_entry FQuotas ex_q1 1;
+       ex_entry FFlows ex_out 1; ex_entry FPathParams (AGateway, 0) 1;
+       ex_entry FGateway ex_out 1; ex_entry FMetrics ex_out 1]
+  = [false; true; false; true; true; false; false].
 Proof. vm_compute. reflexivity. Qed.
